@@ -143,7 +143,7 @@ func (s *clSim) world() (rsWorld, bool) {
 	}
 	br := &v1beta1.BatchRelease{}
 	if err := s.cli.Get(ctx, clRoKey, br); err == nil {
-		w.BR = rsAbstractBR(br, ro)
+		w.BR = cllSafeAbstractBR(br, ro)
 	}
 	w.Net = trAbstract(s.cli)
 	w.Mem = trGetMem(trNS + "/" + trSvc + "-canary")
